@@ -29,11 +29,15 @@ structure AccOK (a : Accepted) : Prop where
   ident : a.srcAk = some a.ident
   chan : a.chan ∈ a.srcPubchans
 
-structure Deliv (s : State) : Prop where
+/-- the delivery invariant, parametric in what is recorded about every accepted publish (`A`): `AccOK` for the
+    fault-free broker, `AccOKF` (Lemmas/BrokerFault) when destinations' transports may refuse writes -/
+structure DelivW (A : Accepted → Prop) (s : State) : Prop where
   log : ∀ c x, s.conn c = some x → pubFrames x.out = delivered s.accepted c
   conn : ∀ c x, s.conn c = some x → ConnOK x
-  acc : ∀ a ∈ s.accepted, AccOK a
+  acc : ∀ a ∈ s.accepted, A a
   recips_exist : ∀ a ∈ s.accepted, ∀ d ∈ a.recips, (s.conn d).isSome = true
+
+abbrev Deliv (s : State) : Prop := DelivW AccOK s
 
 theorem deliv_init : Deliv init := by
   constructor <;> simp [init]
@@ -58,11 +62,11 @@ theorem pubFrames_append_pub (o : List (Nat × Act)) (t : Nat) (i ch p : Bytes) 
 
 /-- a state change that keeps `accepted`, creates no connection, and maps each record to one with the
     same PUBLISH frames that is still `ConnOK` -/
-theorem deliv_of_conn {s s' : State} (hacc : s'.accepted = s.accepted)
+theorem deliv_of_conn {A : Accepted → Prop} {s s' : State} (hacc : s'.accepted = s.accepted)
     (hc : ∀ d y', s'.conn d = some y' → ∃ y, s.conn d = some y ∧ pubFrames y'.out = pubFrames y.out ∧
       (ConnOK y → ConnOK y'))
     (hex : ∀ d, (s.conn d).isSome = true → (s'.conn d).isSome = true)
-    (h : Deliv s) : Deliv s' := by
+    (h : DelivW A s) : DelivW A s' := by
   constructor
   · intro c x' hx'
     obtain ⟨x, hx, hp, _⟩ := hc c x' hx'
@@ -73,9 +77,9 @@ theorem deliv_of_conn {s s' : State} (hacc : s'.accepted = s.accepted)
   · rw [hacc]; exact h.acc
   · rw [hacc]; intro a ha d hd; exact hex d (h.recips_exist a ha d hd)
 
-theorem deliv_upd {s : State} (c : Nat) (f : Conn → Conn)
-    (hf : ∀ x, pubFrames (f x).out = pubFrames x.out ∧ (ConnOK x → ConnOK (f x))) (h : Deliv s) :
-    Deliv (s.upd c f) := by
+theorem deliv_upd {A : Accepted → Prop} {s : State} (c : Nat) (f : Conn → Conn)
+    (hf : ∀ x, pubFrames (f x).out = pubFrames x.out ∧ (ConnOK x → ConnOK (f x))) (h : DelivW A s) :
+    DelivW A (s.upd c f) := by
   refine deliv_of_conn (s := s) (s' := s.upd c f) rfl ?_ ?_ h
   · intro d y' hy'
     simp only [upd_conn] at hy'
@@ -91,7 +95,7 @@ theorem deliv_upd {s : State} (c : Nat) (f : Conn → Conn)
     · subst hdc; simpa using hd
     · simpa [hdc] using hd
 
-theorem deliv_logAct {s : State} (c : Nat) (a : Act) (ha : NonPub a) (h : Deliv s) : Deliv (logAct s c a) := by
+theorem deliv_logAct {A : Accepted → Prop} {s : State} (c : Nat) (a : Act) (ha : NonPub a) (h : DelivW A s) : DelivW A (logAct s c a) := by
   refine deliv_upd c _ (fun x => ?_) h
   have hp := pubFrames_append_nonPub x.out s.now a ha
   exact ⟨hp, fun k => ⟨fun hc => by simp only; rw [hp]; exact k.atClose hc, k.granted⟩⟩
@@ -105,7 +109,7 @@ theorem connOK_beginClose (x : Conn) (k : ConnOK x) : ConnOK x.beginClose := by
 theorem beginClose_out (x : Conn) : x.beginClose.out = x.out := by
   unfold Conn.beginClose; split <;> rfl
 
-theorem deliv_closeT {s : State} (c : Nat) (h : Deliv s) : Deliv (closeT s c) := by
+theorem deliv_closeT {A : Accepted → Prop} {s : State} (c : Nat) (h : DelivW A s) : DelivW A (closeT s c) := by
   refine deliv_upd c _ (fun x => ?_) h
   by_cases hc : x.closing = true
   · rw [if_pos hc]; exact ⟨rfl, id⟩
@@ -119,16 +123,16 @@ theorem deliv_closeT {s : State} (c : Nat) (h : Deliv s) : Deliv (closeT s c) :=
     · show x.beginClose.closing = true
       simp [Conn.beginClose, hc']
 
-theorem deliv_errorClose {s : State} (c : Nat) (h : Deliv s) : Deliv (errorClose s c) :=
+theorem deliv_errorClose {A : Accepted → Prop} {s : State} (c : Nat) (h : DelivW A s) : DelivW A (errorClose s c) :=
   deliv_closeT c (deliv_logAct c _ nonPub_err h)
 
-theorem deliv_beginClose {s : State} (c : Nat) (h : Deliv s) : Deliv (s.upd c Conn.beginClose) :=
+theorem deliv_beginClose {A : Accepted → Prop} {s : State} (c : Nat) (h : DelivW A s) : DelivW A (s.upd c Conn.beginClose) :=
   deliv_upd c _ (fun x => ⟨by rw [beginClose_out], connOK_beginClose x⟩) h
 
-theorem deliv_crashClose {s : State} (c : Nat) (h : Deliv s) : Deliv (crashClose s c) :=
+theorem deliv_crashClose {A : Accepted → Prop} {s : State} (c : Nat) (h : DelivW A s) : DelivW A (crashClose s c) :=
   deliv_beginClose c (deliv_logAct c _ (by intro f hf; cases hf) h)
 
-theorem deliv_peerClose {s : State} (c : Nat) (h : Deliv s) : Deliv (peerClose s c) := by
+theorem deliv_peerClose {A : Accepted → Prop} {s : State} (c : Nat) (h : DelivW A s) : DelivW A (peerClose s c) := by
   unfold peerClose
   split
   · exact h
@@ -137,14 +141,14 @@ theorem deliv_peerClose {s : State} (c : Nat) (h : Deliv s) : Deliv (peerClose s
     · exact deliv_beginClose c (deliv_logAct c _ (by intro f hf; cases hf) h)
 
 /-- a field update that touches neither `out`, `closing`, `pubsAtClose`, `active` nor `granted` -/
-theorem deliv_local {s : State} (c : Nat) (f : Conn → Conn)
+theorem deliv_local {A : Accepted → Prop} {s : State} (c : Nat) (f : Conn → Conn)
     (hf : ∀ x, (f x).out = x.out ∧ (f x).closing = x.closing ∧ (f x).pubsAtClose = x.pubsAtClose ∧
-      (f x).active = x.active ∧ (f x).granted = x.granted) (h : Deliv s) : Deliv (s.upd c f) := by
+      (f x).active = x.active ∧ (f x).granted = x.granted) (h : DelivW A s) : DelivW A (s.upd c f) := by
   refine deliv_upd c f (fun x => ?_) h
   obtain ⟨a, b, c', d, e⟩ := hf x
   exact ⟨by rw [a], fun k => ⟨by rw [b, c', a]; exact k.atClose, by rw [d, e, b]; exact k.granted⟩⟩
 
-theorem deliv_pauseReading {s : State} (c : Nat) (h : Deliv s) : Deliv (pauseReading s c) := by
+theorem deliv_pauseReading {A : Accepted → Prop} {s : State} (c : Nat) (h : DelivW A s) : DelivW A (pauseReading s c) := by
   unfold pauseReading
   split
   · split
@@ -152,7 +156,7 @@ theorem deliv_pauseReading {s : State} (c : Nat) (h : Deliv s) : Deliv (pauseRea
     · exact deliv_logAct c _ (by intro f hf; cases hf) (deliv_local c _ (fun _ => ⟨rfl, rfl, rfl, rfl, rfl⟩) h)
   · exact h
 
-theorem deliv_resumeReading {s : State} (c : Nat) (h : Deliv s) : Deliv (resumeReading s c) := by
+theorem deliv_resumeReading {A : Accepted → Prop} {s : State} (c : Nat) (h : DelivW A s) : DelivW A (resumeReading s c) := by
   unfold resumeReading
   split
   · split
@@ -160,16 +164,16 @@ theorem deliv_resumeReading {s : State} (c : Nat) (h : Deliv s) : Deliv (resumeR
     · exact deliv_logAct c _ (by intro f hf; cases hf) (deliv_local c _ (fun _ => ⟨rfl, rfl, rfl, rfl, rfl⟩) h)
   · exact h
 
-theorem deliv_congr {s s' : State} (h1 : s'.conn = s.conn) (h2 : s'.accepted = s.accepted) (h : Deliv s) :
-    Deliv s' := by
+theorem deliv_congr {A : Accepted → Prop} {s s' : State} (h1 : s'.conn = s.conn) (h2 : s'.accepted = s.accepted) (h : DelivW A s) :
+    DelivW A s' := by
   constructor
   · rw [h1, h2]; exact h.log
   · rw [h1]; exact h.conn
   · rw [h2]; exact h.acc
   · rw [h1, h2]; exact h.recips_exist
 
-theorem deliv_setAuth {s : State} (c : Nat) (i d : Bytes) (row : Row) (h : Deliv s) :
-    Deliv (setAuth s c i d row) := by
+theorem deliv_setAuth {A : Accepted → Prop} {s : State} (c : Nat) (i d : Bytes) (row : Row) (h : DelivW A s) :
+    DelivW A (setAuth s c i d row) := by
   unfold setAuth
   split
   · exact h
@@ -224,7 +228,7 @@ theorem connOK_shrink {y y' : Conn} (ho : y'.out = y.out) (hc : y'.closing = y.c
     (ha : ∀ ch ∈ y'.active, ch ∈ y.active) (k : ConnOK y) : ConnOK y' :=
   ⟨by rw [hc, hp, ho]; exact k.atClose, fun ch hch => by rw [hg, hc]; exact k.granted ch (ha ch hch)⟩
 
-theorem deliv_unsubscribe {s : State} (c : Nat) (ch : Bytes) (h : Deliv s) : Deliv (unsubscribe s c ch) := by
+theorem deliv_unsubscribe {A : Accepted → Prop} {s : State} (c : Nat) (ch : Bytes) (h : DelivW A s) : DelivW A (unsubscribe s c ch) := by
   refine deliv_of_conn (unsubscribe_accepted s c ch) ?_ ?_ h
   · intro d y' hy'
     by_cases hd : d = c
@@ -243,7 +247,7 @@ theorem deliv_unsubscribe {s : State} (c : Nat) (ch : Bytes) (h : Deliv s) : Del
       | some x => rw [unsubscribe_conn hx]; rfl
     · rw [unsubscribe_conn_ne hdc]; exact hd
 
-theorem deliv_connectionLost {s : State} (c : Nat) (h : Deliv s) : Deliv (connectionLost s c) := by
+theorem deliv_connectionLost {A : Accepted → Prop} {s : State} (c : Nat) (h : DelivW A s) : DelivW A (connectionLost s c) := by
   refine deliv_of_conn (connectionLost_accepted s c) ?_ ?_ h
   · intro d y' hy'
     by_cases hd : d = c
@@ -265,11 +269,11 @@ theorem deliv_connectionLost {s : State} (c : Nat) (h : Deliv s) : Deliv (connec
       obtain ⟨y', hy', _⟩ := mono_connectionLost s c d x hx
       rw [hy']; rfl
 
-theorem deliv_doUnsubscribe {s : State} (c : Nat) (ch : Bytes) (h : Deliv s) : Deliv (doUnsubscribe s c ch) :=
+theorem deliv_doUnsubscribe {A : Accepted → Prop} {s : State} (c : Nat) (ch : Bytes) (h : DelivW A s) : DelivW A (doUnsubscribe s c ch) :=
   deliv_local c _ (fun _ => ⟨rfl, rfl, rfl, rfl, rfl⟩) (deliv_unsubscribe c ch h)
 
-theorem deliv_doSubscribe {s : State} (c : Nat) (ch : Bytes) (ok : Bool) (x : Conn) (hx : s.conn c = some x)
-    (hok : ok = false → x.closing = true) (h : Deliv s) : Deliv (doSubscribe s c ch ok) := by
+theorem deliv_doSubscribe {A : Accepted → Prop} {s : State} (c : Nat) (ch : Bytes) (ok : Bool) (x : Conn) (hx : s.conn c = some x)
+    (hok : ok = false → x.closing = true) (h : DelivW A s) : DelivW A (doSubscribe s c ch ok) := by
   unfold doSubscribe noteSub
   refine deliv_of_conn (s := s) (subscribe_accepted s c ch) ?_ ?_ h
   · intro d y' hy'
@@ -307,14 +311,14 @@ theorem deliv_doSubscribe {s : State} (c : Nat) (ch : Bytes) (ok : Bool) (x : Co
     · subst hdc; simp [subscribe_conn hx]
     · simp [hdc, subscribe_conn_ne hdc]; exact hd
 
-theorem deliv_markGone {s : State} (c : Nat) (h : Deliv s) : Deliv (markGone s c) :=
+theorem deliv_markGone {A : Accepted → Prop} {s : State} (c : Nat) (h : DelivW A s) : DelivW A (markGone s c) :=
   deliv_local c _ (fun _ => ⟨rfl, rfl, rfl, rfl, rfl⟩) (deliv_peerClose c h)
 
-theorem deliv_lostConn {s : State} (c : Nat) (h : Deliv s) : Deliv (lostConn s c) :=
+theorem deliv_lostConn {A : Accepted → Prop} {s : State} (c : Nat) (h : DelivW A s) : DelivW A (lostConn s c) :=
   deliv_markGone c (deliv_connectionLost c h)
 
-theorem deliv_addConn {cfg : Cfg} {s : State} (c : Nat) (n : Bytes) (hc : s.conn c = none) (h : Deliv s) :
-    Deliv (addConn cfg s c n) := by
+theorem deliv_addConn {A : Accepted → Prop} {cfg : Cfg} {s : State} (c : Nat) (n : Bytes) (hc : s.conn c = none) (h : DelivW A s) :
+    DelivW A (addConn cfg s c n) := by
   have hnew : delivered s.accepted c = [] := by
     unfold delivered
     rw [List.filterMap_eq_nil_iff]
